@@ -237,6 +237,7 @@ def _check_children(ctx, cid, what, nchild, R, g, child):
 def _derived(ctx, api, g, m, cid, walk, rng, R, M, union, grid_from_segments):
     """refine, barycentric refinement, union, segment extraction."""
     if g.number_of_elements <= (60 if ctx.quick else 400):
+        st0 = _grid_state(g)
         gr = g.refine()
         walk(gr, cid + ":refine", what="refine()")
         _check_children(ctx, cid + ":refine", "refine", 4, R, g, gr)
@@ -249,6 +250,8 @@ def _derived(ctx, api, g, m, cid, walk, rng, R, M, union, grid_from_segments):
             ctx.violation("grid:barycentric:vertex_count", "%d vs V+E+F=%d" % (gb.number_of_vertices, g.number_of_vertices + g.number_of_edges + g.number_of_elements), cid)
         if g.barycentric_refinement is not gb:
             ctx.violation("grid:barycentric:not_cached", "barycentric_refinement returns a new object each time", cid)
+        if _grid_state(g) != st0:
+            ctx.violation("grid:refine:operand_modified", "refine()/barycentric_refinement changed the parent grid", cid)
         if not ctx.quick and g.number_of_elements <= 40:
             grr = gr.refine()
             walk(grr, cid + ":refine2", what="refine().refine()")
@@ -264,8 +267,11 @@ def _derived(ctx, api, g, m, cid, walk, rng, R, M, union, grid_from_segments):
     for _rep in range(2 if len(doms) >= 2 else 0):
         k = int(rng.integers(1, len(doms)))
         segs = [int(x) for x in rng.choice(doms, size=k, replace=False)]
+        st0 = _grid_state(g)
         gs = grid_from_segments(g, segs)
         walk(gs, cid + ":segments", what="grid_from_segments")
+        if _grid_state(g) != st0:
+            ctx.violation("grid:segments:operand_modified", "grid_from_segments changed the parent grid", cid)
         sel = np.isin(np.asarray(g.domain_indices), segs)
         want = _tri_rows(np.asarray(g.vertices), np.asarray(g.elements)[:, sel], np.asarray(g.domain_indices)[sel])
         got = _tri_rows(np.asarray(gs.vertices), np.asarray(gs.elements), np.asarray(gs.domain_indices))
@@ -286,9 +292,17 @@ def _derived(ctx, api, g, m, cid, walk, rng, R, M, union, grid_from_segments):
         else:
             dom = None
         norm = bool(variant != 1)
+        before = [_grid_state(g), _grid_state(go)]
         gu = union([g, go], domain_indices=dom, swapped_normals=sw, normalize_domain_indices=norm)
         c2 = "%s:union%d" % (cid, variant)
         walk(gu, c2, what="union")
+        # a derived grid is a new grid: the operands keep their vertices, elements and domain indices (otherwise grids derived
+        # from them earlier - refinements, the cached barycentric refinement, segment grids - stop being nested domain-wise)
+        for part, (gp, st) in enumerate(zip((g, go), before)):
+            changed = [n for n, (x, y) in zip(_STATE_NAMES, zip(st, _grid_state(gp))) if x != y]
+            ctx.count("operand_state_comparisons")
+            if changed:
+                ctx.violation("grid:union:operand_modified", "union(normalize_domain_indices=%s) changed %s of operand %d" % (norm, changed, part), c2)
         ne0 = g.number_of_elements
         if gu.number_of_elements != ne0 + go.number_of_elements or gu.number_of_vertices != g.number_of_vertices + go.number_of_vertices:
             ctx.violation("grid:union:counts", "element/vertex counts", c2)
@@ -328,6 +342,20 @@ def _derived(ctx, api, g, m, cid, walk, rng, R, M, union, grid_from_segments):
                 ctx.violation("grid:union:domain_collision", "the two grids share a domain index %s" % sorted(d0 & d1), c2)
             if norm and sorted(d0 | d1) != list(range(len(d0 | d1))):
                 ctx.violation("grid:union:domain_not_normalised", "indices %s are not 0..N-1" % sorted(d0 | d1), c2)
+
+
+_STATE_NAMES = ("vertices", "elements", "domain_indices", "data('double').domain_indices", "data('single').domain_indices", "data('double').elements")
+
+
+def _grid_state(g):
+    """Byte-exact snapshot of what defines a grid (public arrays and the data containers the kernels read)."""
+    out = [np.asarray(g.vertices).tobytes(), np.asarray(g.elements).tobytes(), np.asarray(g.domain_indices).tobytes()]
+    for prec, attr in (("double", "domain_indices"), ("single", "domain_indices"), ("double", "elements")):
+        try:
+            out.append(np.asarray(getattr(g.data(prec), attr)).tobytes())
+        except Exception:
+            out.append(b"")
+    return out
 
 
 def _tri_rows(V, E, D):
